@@ -102,7 +102,7 @@ def on_alarm(signum, frame):
     raise Hang(where)
 
 
-signal.signal(signal.SIGALRM, on_alarm)
+signal.signal(signal.SIGVTALRM, on_alarm)          # CPU time of this process, not wall-clock time: the verdict must not flip on a busy machine
 
 
 def hang_class(src, where):
@@ -117,7 +117,7 @@ def hang_class(src, where):
 def outcome(src):
     errs = []
     HUNG[0] = None
-    signal.setitimer(signal.ITIMER_REAL, BUDGET)
+    signal.setitimer(signal.ITIMER_VIRTUAL, BUDGET)
     try:
         try:
             with reports.handle_reports(lambda p, i, *l: errs.append(i) if p is not reports.warning else None):
@@ -141,7 +141,7 @@ def outcome(src):
                 return "crash:IntStrLimit@%s" % where        # CPython's 4300-digit guard hit while formatting a diagnostic
             return "crash:%s@%s" % (type(e).__name__, where)
     finally:
-        signal.setitimer(signal.ITIMER_REAL, 0)
+        signal.setitimer(signal.ITIMER_VIRTUAL, 0)
         # leave the module-level state of deferred.py / reports.py as a fresh process has it (an interrupted run cannot)
         from pdpy11 import deferred
         deferred.try_compute.depth = 0
